@@ -516,9 +516,25 @@ def memo_key_gaps(pm: PM, fi: FuncInfo):
         t = a.targets[0]
         b = t.value
         persistent = isinstance(b, ast.Attribute) and isinstance(b.value, ast.Name) and (b.value.id in ("self", "cls") or b.value.id in pm.classes)
+        roots = set(params)
         if isinstance(b, ast.Name):
             mi = pm.modules.get(fi.module)
             persistent = mi is not None and b.id in mi.assigns
+            if not persistent:
+                # a local dict that lives across the iterations of a loop: created before the loop, written inside it
+                loop = None
+                p_ = getattr(a, "_parent", None)
+                while p_ is not None and p_ is not fn:
+                    if isinstance(p_, (ast.For, ast.While)):
+                        loop = p_
+                    p_ = getattr(p_, "_parent", None)
+                inits = [x for x in walk_no_nested(fn) if isinstance(x, (ast.Assign, ast.AnnAssign)) and any(isinstance(t2, ast.Name) and t2.id == b.id for t2 in (x.targets if isinstance(x, ast.Assign) else [x.target]))]
+                if loop is not None and len(inits) == 1 and not any(x is inits[0] for x in ast.walk(loop)) and inits[0].value is not None \
+                        and (isinstance(inits[0].value, ast.Dict) or (isinstance(inits[0].value, ast.Call) and isinstance(inits[0].value.func, ast.Name) and inits[0].value.func.id == "dict")):
+                    persistent = True
+                    for t2 in ast.walk(loop.target) if isinstance(loop, ast.For) else []:
+                        if isinstance(t2, ast.Name):
+                            roots.add(t2.id)
         if not persistent:
             continue
         cont = unparse(b)
@@ -533,10 +549,32 @@ def memo_key_gaps(pm: PM, fi: FuncInfo):
             for alt in alternatives(e, fn):
                 for x in leaves(alt):
                     root = x.split(".")[0].split("[")[0]
-                    if root in params:
+                    if root in roots:
                         ls.add(x)
             return ls
         kl, vl = param_leaves(t.slice), param_leaves(a.value)
         missing = sorted(v for v in vl if not any(v == k or v.startswith(k + ".") or v.startswith(k + "[") for k in kl))
+        # projection check: the key uses only a part (attribute / item) of an object that the stored value uses as a whole
+        def whole_and_parts(e):
+            whole, parts_ = set(), set()
+            for n in ast.walk(e):
+                if isinstance(n, ast.Name) and isinstance(n.ctx, ast.Load):
+                    par = getattr(n, "_parent", None)
+                    if isinstance(par, ast.Attribute) and par.value is n:
+                        gp = getattr(par, "_parent", None)
+                        if isinstance(gp, ast.Call) and gp.func is par:
+                            whole.add(n.id)             # method call on the object: uses it as a whole
+                        else:
+                            parts_.add((n.id, par.attr))
+                    elif isinstance(par, ast.Subscript) and par.value is n:
+                        parts_.add((n.id, "[...]"))
+                    else:
+                        whole.add(n.id)
+            return whole, parts_
+        k_whole, k_parts = whole_and_parts(t.slice)
+        v_whole, _v_parts = whole_and_parts(a.value)
+        for base, part in sorted(k_parts):
+            if base not in k_whole and base in v_whole and base not in ("self", "cls"):
+                missing.append(f"{base} (the key uses only {base}.{part})" if part != "[...]" else f"{base} (the key uses only an item of it)")
         out.append((a, cont, sorted(kl), sorted(vl), missing))
     return out
